@@ -441,6 +441,7 @@ def in1(F, R):
         seen_arg = [a for a in e.args if "HashSet" in type_hint(cand, a)] or [e.args[-1]]
         # guard: !contains(seen, target)
         g = None
+        marked_by_test = False
         for f in e.facts:
             if f[0] == "bool" and f[2] is False:
                 ce = strip_load(f[1])
@@ -448,6 +449,13 @@ def in1(F, R):
                     if strip_sites(strip_load(ce[2][1])) == strip_sites(strip_load(tgt)) or \
                             strip_sites(deref_item(ce[2][1])) == strip_sites(deref_item(tgt)):
                         g = f
+            if f[0] == "bool" and f[2] is True:
+                # `if seen.insert(target)`: test and mark in one step
+                ce = strip_load(f[1])
+                if ce[0] == "call" and ce[1].endswith("::insert") and "HashSet" in ce[1] and \
+                        strip_sites(unload(ce[2][1])) == strip_sites(unload(tgt)):
+                    g = f
+                    marked_by_test = True
         if g is None:
             R.bad("IN1", "IN1/Sodg::inspect/recursion-not-guarded-by-seen", e.where(),
                   "the recursive descent is not restricted to vertices that have not been visited: inspect() does not "
@@ -455,7 +463,7 @@ def in1(F, R):
                   {"guards": [show(f, e.body) for f in e.facts if "Level" not in repr(f)]})
             continue
         # mark: callee marks its parameter on entry (unconditionally), or caller marks the target before the call
-        marked = False
+        marked = marked_by_test
         for m in marks:
             if m.body is cand and m.uncond and strip_sites(strip_load(m.args[1])) == ("param", 2):
                 marked = True
@@ -544,14 +552,52 @@ def in2(F, R):
             if not (has_l and has_t):
                 R.bad("IN2", "IN2/Sodg::inspect/edge-line-incomplete", it.where(), "an edge line lacks the label or the target")
                 continue
-            # the push of the edge's own line must be unconditional w.r.t. the item
-            cond = []
-            own = [e for e in pushes if e.body is not cand or True]
+            # the edge's own line is pushed on every pass: unconditionally w.r.t. the item, or by line pushes that together
+            # cover every way through the loop body
             ok_push = False
             for e in pushes:
                 fs = [f for f in e.facts if mentions(f, p) and not is_iter_protocol_fact(f)]
                 if not fs:
                     ok_push = True
+            if not ok_push and line_pushes:
+                lb = line_pushes[0].body
+                blocks = {e.site[0] for e in line_pushes if e.body is lb}
+                if it.form == "loop" and lb is it.body:
+                    start = [s2 for s2, lab in lb.succ[it.site[0]]]          # into the body / out of the loop
+                    hdr = it.site[0]
+                    # can the header be reached again from the body without passing a line push?
+                    seen_b = set()
+                    st = [x for x in start if x not in blocks]
+                    leak = False
+                    body_blocks = {bi for bi in lb.reachable if any(is_iter_protocol_fact(f) and f[2] == frozenset(["Some"]) and
+                                                                     strip_sites(strip_load(strip_load(f[1])[1])[1]) == strip_sites(it.it)
+                                                                     for f in lb.facts_in().get(bi, frozenset()))}
+                    st = [x for x in st if x in body_blocks]
+                    while st:
+                        x = st.pop()
+                        if x in seen_b or x in blocks:
+                            continue
+                        seen_b.add(x)
+                        for s2, _ in lb.succ[x]:
+                            if s2 == hdr:
+                                leak = True
+                            elif s2 in body_blocks:
+                                st.append(s2)
+                    ok_push = not leak
+                else:
+                    # closure body handed to for_each: every returning path passes a line push
+                    seen_b = set()
+                    st = [0]
+                    leak = False
+                    while st:
+                        x = st.pop()
+                        if x in seen_b or x in blocks:
+                            continue
+                        seen_b.add(x)
+                        if lb.blocks[x]["term"]["k"] == "return":
+                            leak = True
+                        st.extend(s2 for s2, _ in lb.succ[x])
+                    ok_push = not leak
             if not ok_push:
                 R.bad("IN2", "IN2/Sodg::inspect/edge-line-conditional", it.where(),
                       "the line of an edge is pushed only under a condition on the edge (e.g. only for unvisited targets): "
@@ -596,40 +642,49 @@ def in4(F, R):
     col = Collector(F)
     raw = col.collect(b)
     R.analysed(b, len(raw))
-    # marker: a string constant selected by persistence ==/!= Empty of V(v)
+    # marker: the places where the marker string / the empty string is chosen, and what is known there about V(v)
     found = False
-    for bi in sorted(b.reachable):
-        t = b.blocks[bi]["term"]
-        if t["k"] != "switch":
-            continue
-        for tgt, lab in b.succ[bi]:
-            f = b.edge_fact(bi, lab)
-            if f and f[0] in ("in", "notin") and is_pers_discr_of(f[1]):
+    has, hasnot = [], []
+    for site, kind, st in b.sites():
+        if kind == "stmt" and st["k"] == "assign" and st["rv"]["k"] == "use" and st["rv"]["op"]["k"] == "const":
+            e = b.expr_const(st["rv"]["op"])
+            if e[0] == "str":
+                (has if "Δ" in e[1] else hasnot if e[1] == "" else []).append(site)
+    pv = None
+    for site in has:
+        facts = b.facts_at(site)
+        ok_here = False
+        for f in facts:
+            if f[0] in ("in", "notin") and is_pers_discr_of(f[1]):
                 inner = strip_load(strip_load(f[1])[1])
                 v = vertex_of(inner[1])
                 if v is not None and strip_load(v[1]) == ("param", 2):
-                    has_data_edge = (f[0] == "notin" and f[2] == frozenset(["Empty"])) or (f[0] == "in" and f[2] == frozenset(["Stored", "Taken"]))
-                    no_data_edge = f[0] == "in" and f[2] == frozenset(["Empty"])
-                    if has_data_edge or no_data_edge:
-                        # what string does this edge select?
-                        s = selected_string(b, tgt)
-                        if s is not None:
-                            if has_data_edge and "Δ" not in s:
-                                R.bad("IN4", "IN4/Sodg::v_print/marker-swapped", b.where((bi, 0)),
-                                      "the data marker is shown exactly when the vertex has NO data")
-                            elif no_data_edge and "Δ" in s:
-                                R.bad("IN4", "IN4/Sodg::v_print/marker-swapped", b.where((bi, 0)),
-                                      "the data marker is shown exactly when the vertex has NO data")
-                            else:
-                                found = True
+                    if (f[0] == "notin" and f[2] == frozenset(["Empty"])) or (f[0] == "in" and f[2] == frozenset(["Stored", "Taken"])):
+                        ok_here = True
+                    elif f[0] == "in" and f[2] == frozenset(["Empty"]):
+                        R.bad("IN4", "IN4/Sodg::v_print/marker-swapped", b.where(site), "the data marker is shown exactly when the vertex has NO data")
+                        return
                     else:
-                        R.bad("IN4", "IN4/Sodg::v_print/marker-guard", b.where((bi, 0)),
+                        R.bad("IN4", "IN4/Sodg::v_print/marker-guard", b.where(site),
                               "the data marker depends on something other than 'has data' (persistence != Empty): %s" % show(f, b))
+                        return
+        if ok_here:
+            found = True
+        else:
+            found = False
+            break
     if found:
+        # and the empty alternative is chosen only without data
+        for site in hasnot:
+            facts = b.facts_at(site)
+            for f in facts:
+                if f[0] == "in" and is_pers_discr_of(f[1]) and "Empty" not in f[2]:
+                    R.bad("IN4", "IN4/Sodg::v_print/marker-swapped", b.where(site), "no marker is shown for a vertex that has data")
+                    return
         R.ok("IN4", b.where(), "v_print shows the data marker iff persistence ∉ {Empty} of the printed vertex")
     else:
         R.bad("IN4", "IN4/Sodg::v_print/marker-not-tied-to-has-data", b.where(),
-              "cannot establish IN4: no selection of the data marker by the printed vertex's persistence found")
+              "cannot establish IN4: the data marker is not selected by 'the printed vertex has data' (persistence != Empty)")
     eits, _ = iterations(F, b, is_edges_field)
     if not eits:
         R.missing("IN4", "iteration over the vertex's edges in v_print", b.where())
@@ -656,6 +711,10 @@ def in4(F, R):
             p = it.item_pred()
             for e in it.body_events():
                 if any(mentions(a, lambda x: x[0] == "field" and x[2] == "(tuple)::0" and mentions(x[1], p)) for a in e.args):
+                    uses_label = True
+            if source_method(it.it) == "keys":
+                # edges.keys(): the item is the label itself
+                if any(an == "map" for an, _ in it.adaptors) or it.body_events():
                     uses_label = True
             if uses_label:
                 R.ok("IN4", it.where(), "v_print lists one label per edge of the printed vertex")
